@@ -270,3 +270,231 @@ Theorem ser_vtree_leaves t :
   = (fix lv (t : VTree.vtree) : list nat :=
        match t with VTree.VLeaf v => [v] | VTree.VNode l r => lv l ++ lv r end) t.
 Proof. induction t as [v|l IHl r IHr]; cbn; [reflexivity|rewrite IHl, IHr; reflexivity]. Qed.
+
+(* ==================================================================================== *)
+(* SDDSerializer *)
+From RsddV Require Import Model.SddOps Proofs.SddBase.
+
+Definition is_node (k : sdd) : Prop :=
+  match k with SBdd false _ _ _ _ | SOr false _ _ => True | _ => False end.
+
+Lemma sden_reg p a : is_node (s_reg p) -> sden p a = xorb (s_compl p) (sden (s_reg p) a).
+Proof.
+  destruct p as [| |v b|c l i lo hi|c i els]; cbn [s_reg is_node]; try contradiction.
+  - destruct c; intros _; cbn [s_compl s_reg sden]; rewrite !xorb_false_l; reflexivity.
+  - destruct c; intros _; cbn [s_compl s_reg]; rewrite !sden_or, !xorb_false_l; reflexivity.
+Qed.
+
+Lemma slookup_cons k k' i t :
+  slookup k ((k', i) :: t) = if sdd_eqb k k' then Some i else slookup k t.
+Proof. reflexivity. Qed.
+
+Section SddSer.
+Variable a : asg.
+
+Definition sinv (tbl : list (sdd * nat)) (vals : list bool) : Prop :=
+  forall k i, slookup k tbl = Some i -> is_node k /\ nth_error vals i = Some (sden k a).
+
+Lemma xptr_val_app vals ext p b : xptr_val vals a p = Some b -> xptr_val (vals ++ ext) a p = Some b.
+Proof.
+  destruct p as [i c| | |l pol]; cbn [xptr_val]; try (intros H; exact H).
+  destruct (nth_error vals i) as [x|] eqn:E; [|discriminate].
+  intros H. rewrite nth_error_app1 by (apply nth_error_Some; congruence). rewrite E. exact H.
+Qed.
+
+Lemma xptr_val_below vals p b : xptr_val vals a p = Some b -> xptr_below (length vals) p = true.
+Proof.
+  destruct p as [i c| | |l pol]; cbn [xptr_val xptr_below]; try reflexivity.
+  destruct (nth_error vals i) as [x|] eqn:E; [|discriminate].
+  intros _. apply Nat.ltb_lt, nth_error_Some. congruence.
+Qed.
+
+Lemma eval_xrows_app r1 r2 acc :
+  eval_xrows (r1 ++ r2) acc a = match eval_xrows r1 acc a with Some v => eval_xrows r2 v a | None => None end.
+Proof.
+  revert acc. induction r1 as [|r t IH]; intros acc; [reflexivity|].
+  cbn [app eval_xrows]. destruct (xrow_val acc a r); [apply IH|reflexivity].
+Qed.
+
+Lemma eval_xrows_length rows : forall acc vals,
+  eval_xrows rows acc a = Some vals -> length vals = length acc + length rows.
+Proof.
+  induction rows as [|r t IH]; intros acc vals H; cbn [eval_xrows] in H.
+  - inversion H; subst. cbn. lia.
+  - destruct (xrow_val acc a r); [|discriminate]. rewrite (IH _ _ H), app_length. cbn. lia.
+Qed.
+
+Lemma xrow_val_below vals r b :
+  xrow_val vals a r = Some b ->
+  forallb (fun e => xptr_below (length vals) (fst e) && xptr_below (length vals) (snd e)) r = true.
+Proof.
+  revert b. induction r as [|[p s] t IH]; intros b H; [reflexivity|]. cbn [xrow_val] in H.
+  destruct (xptr_val vals a p) as [bp|] eqn:Ep; [|discriminate].
+  destruct (xptr_val vals a s) as [bs|] eqn:Es; [|discriminate].
+  destruct (xrow_val vals a t) as [bt|] eqn:Et; [|discriminate].
+  cbn [forallb fst snd]. rewrite (xptr_val_below _ _ _ Ep), (xptr_val_below _ _ _ Es), (IH _ eq_refl). reflexivity.
+Qed.
+
+Lemma eval_xrows_ordered rows : forall acc vals,
+  eval_xrows rows acc a = Some vals -> xrows_ordered_from (length acc) rows = true.
+Proof.
+  induction rows as [|r t IH]; intros acc vals H; [reflexivity|]. cbn [eval_xrows] in H.
+  destruct (xrow_val acc a r) as [b|] eqn:E; [|discriminate].
+  cbn [xrows_ordered_from]. rewrite (xrow_val_below _ _ _ E). cbn [andb].
+  specialize (IH _ _ H). rewrite app_length in IH. cbn [length] in IH.
+  replace (length acc + 1) with (S (length acc)) in IH by lia. exact IH.
+Qed.
+
+(* what serialising p from a sound state yields *)
+Definition ser_ok (p : sdd) : Prop :=
+  forall (st : sstate) vals, eval_xrows (snd st) [] a = Some vals -> sinv (fst st) vals ->
+  exists vals',
+    eval_xrows (snd (snd (ser_sdd p st))) [] a = Some vals' /\
+    sinv (fst (snd (ser_sdd p st))) vals' /\
+    (exists ext, vals' = vals ++ ext) /\
+    xptr_val vals' a (fst (ser_sdd p st)) = Some (sden p a).
+
+Lemma ser_hit p (st : sstate) vals i :
+  slookup (s_reg p) (fst st) = Some i -> sinv (fst st) vals ->
+  xptr_val vals a (XPtr i (s_compl p)) = Some (sden p a).
+Proof.
+  intros Hl Hinv. destruct (Hinv _ _ Hl) as (Hn & Hv). cbn [xptr_val]. rewrite Hv.
+  rewrite (sden_reg p a Hn). reflexivity.
+Qed.
+
+Lemma sinv_push tbl vals key b :
+  sinv tbl vals -> is_node key -> b = sden key a ->
+  sinv ((key, length vals) :: tbl) (vals ++ [b]).
+Proof.
+  intros Hinv Hn -> k i. rewrite slookup_cons. destruct (sdd_eqb k key) eqn:E.
+  - intros H; inversion H; subst i. apply sdd_eqb_eq in E. subst k. split; [exact Hn|].
+    rewrite nth_error_app2 by lia. rewrite Nat.sub_diag. reflexivity.
+  - intros H. destruct (Hinv _ _ H) as (Hk & Hv). split; [exact Hk|].
+    rewrite nth_error_app1 by (apply nth_error_Some; congruence). exact Hv.
+Qed.
+
+Lemma ser_els_ok els :
+  Forall (fun e => ser_ok (fst e) /\ ser_ok (snd e)) els ->
+  forall (st : sstate) vals, eval_xrows (snd st) [] a = Some vals -> sinv (fst st) vals ->
+  exists vals',
+    eval_xrows (snd (snd (ser_els els st))) [] a = Some vals' /\
+    sinv (fst (snd (ser_els els st))) vals' /\
+    (exists ext, vals' = vals ++ ext) /\
+    xrow_val vals' a (fst (ser_els els st)) = Some (den_els els a).
+Proof.
+  induction 1 as [|[pr sb] r (Hp & Hs) _ IH]; intros st vals Hu Hinv.
+  - exists vals. cbn. split; [exact Hu|]. split; [exact Hinv|]. split; [exists []; rewrite app_nil_r; reflexivity|reflexivity].
+  - cbn [ser_els fst snd] in *.
+    destruct (Hp st vals Hu Hinv) as (v1 & Hu1 & Hi1 & (e1 & He1) & Hv1).
+    destruct (ser_sdd pr st) as [pp s1]. cbn [fst snd] in *.
+    destruct (Hs s1 v1 Hu1 Hi1) as (v2 & Hu2 & Hi2 & (e2 & He2) & Hv2).
+    destruct (ser_sdd sb s1) as [ss s2]. cbn [fst snd] in *.
+    destruct (IH s2 v2 Hu2 Hi2) as (v3 & Hu3 & Hi3 & (e3 & He3) & Hv3).
+    destruct (ser_els r s2) as [rest s3]. cbn [fst snd] in *.
+    exists v3. split; [exact Hu3|]. split; [exact Hi3|]. split.
+    + exists (e1 ++ e2 ++ e3). rewrite He3, He2, He1, <- !app_assoc. reflexivity.
+    + cbn [xrow_val]. rewrite Hv3.
+      assert (P1 : xptr_val v3 a pp = Some (sden pr a)).
+      { rewrite He3, He2, <- app_assoc. apply xptr_val_app, Hv1. }
+      assert (P2 : xptr_val v3 a ss = Some (sden sb a)) by (rewrite He3; apply xptr_val_app, Hv2).
+      rewrite P1, P2. reflexivity.
+Qed.
+
+Lemma ser_sdd_or c idx els st :
+  ser_sdd (SOr c idx els) st =
+  match slookup (SOr false idx els) (fst st) with
+  | Some i => (XPtr i c, st)
+  | None =>
+    let '(o, st1) := ser_els els st in
+    (XPtr (length (snd st1)) c, ((SOr false idx els, length (snd st1)) :: fst st1, snd st1 ++ [o]))
+  end.
+Proof.
+  assert (E : forall l s,
+    (fix go (l : list elem) (st : sstate) : xrow * sstate :=
+       match l with
+       | [] => ([], st)
+       | (pr, sb) :: r =>
+         let '(pp, s1) := ser_sdd pr st in
+         let '(ss, s2) := ser_sdd sb s1 in
+         let '(rest, s3) := go r s2 in
+         ((pp, ss) :: rest, s3)
+       end) l s = ser_els l s).
+  { induction l as [|[pr sb] r IH]; intros s; [reflexivity|].
+    cbn [ser_els]. destruct (ser_sdd pr s) as [pp s1]. destruct (ser_sdd sb s1) as [ss s2].
+    rewrite IH. reflexivity. }
+  destruct c; cbn [ser_sdd s_reg s_compl]; destruct (slookup (SOr false idx els) (fst st)); try reflexivity;
+    rewrite E; reflexivity.
+Qed.
+
+Lemma ser_sdd_ok p : ser_ok p.
+Proof.
+  induction p as [| |v b|c lbl idx lo hi IHlo IHhi|c idx els IH] using sdd_ind'; intros st vals Hu Hinv.
+  - cbn [ser_sdd s_reg]. destruct (slookup ST (fst st)) as [i|] eqn:El.
+    + exists vals. cbn [fst snd]. split; [exact Hu|]. split; [exact Hinv|]. split; [exists []; rewrite app_nil_r; reflexivity|].
+      exact (ser_hit ST st vals i El Hinv).
+    + exists vals. cbn [fst snd]. split; [exact Hu|]. split; [exact Hinv|]. split; [exists []; rewrite app_nil_r; reflexivity|reflexivity].
+  - cbn [ser_sdd s_reg]. destruct (slookup SF (fst st)) as [i|] eqn:El.
+    + exists vals. cbn [fst snd]. split; [exact Hu|]. split; [exact Hinv|]. split; [exists []; rewrite app_nil_r; reflexivity|].
+      exact (ser_hit SF st vals i El Hinv).
+    + exists vals. cbn [fst snd]. split; [exact Hu|]. split; [exact Hinv|]. split; [exists []; rewrite app_nil_r; reflexivity|reflexivity].
+  - cbn [ser_sdd s_reg]. destruct (slookup (SVar v b) (fst st)) as [i|] eqn:El.
+    + exists vals. cbn [fst snd]. split; [exact Hu|]. split; [exact Hinv|]. split; [exists []; rewrite app_nil_r; reflexivity|].
+      exact (ser_hit (SVar v b) st vals i El Hinv).
+    + exists vals. cbn [fst snd]. split; [exact Hu|]. split; [exact Hinv|]. split; [exists []; rewrite app_nil_r; reflexivity|reflexivity].
+  - assert (Hreg : s_reg (SBdd c lbl idx lo hi) = SBdd false lbl idx lo hi) by (destruct c; reflexivity).
+    cbn [ser_sdd]. rewrite Hreg. destruct (slookup (SBdd false lbl idx lo hi) (fst st)) as [i|] eqn:El.
+    + exists vals. cbn [fst snd]. split; [exact Hu|]. split; [exact Hinv|]. split; [exists []; rewrite app_nil_r; reflexivity|].
+      apply (ser_hit (SBdd c lbl idx lo hi) st vals i); [rewrite Hreg; exact El|exact Hinv].
+    + destruct (IHlo st vals Hu Hinv) as (v1 & Hu1 & Hi1 & (e1 & He1) & Hv1).
+      destruct (ser_sdd lo st) as [l s1]. cbn [fst snd] in *.
+      destruct (IHhi s1 v1 Hu1 Hi1) as (v2 & Hu2 & Hi2 & (e2 & He2) & Hv2).
+      destruct (ser_sdd hi s1) as [h s2]. cbn [fst snd] in *.
+      assert (Hlen : length (snd s2) = length v2).
+      { rewrite (eval_xrows_length _ _ _ Hu2). reflexivity. }
+      assert (Pl : xptr_val v2 a l = Some (sden lo a)) by (rewrite He2; apply xptr_val_app, Hv1).
+      exists (v2 ++ [sden (SBdd false lbl idx lo hi) a]).
+      split; [|split; [|split]].
+      * rewrite eval_xrows_app, Hu2. cbn [eval_xrows xrow_val xptr_val]. rewrite Hv2, Pl.
+        cbn [sden]. rewrite xorb_false_l. destruct (a lbl), (sden hi a), (sden lo a); reflexivity.
+      * rewrite Hlen. apply sinv_push; [exact Hi2|exact I|reflexivity].
+      * exists (e1 ++ e2 ++ [sden (SBdd false lbl idx lo hi) a]). rewrite He2, He1, <- !app_assoc. reflexivity.
+      * cbn [xptr_val]. rewrite Hlen, nth_error_app2 by lia. rewrite Nat.sub_diag. cbn [nth_error].
+        f_equal. destruct c; cbn [s_compl sden]; rewrite ?xorb_false_l; reflexivity.
+  - rewrite ser_sdd_or. destruct (slookup (SOr false idx els) (fst st)) as [i|] eqn:El.
+    + exists vals. cbn [fst snd]. split; [exact Hu|]. split; [exact Hinv|]. split; [exists []; rewrite app_nil_r; reflexivity|].
+      assert (Hreg : s_reg (SOr c idx els) = SOr false idx els) by (destruct c; reflexivity).
+      replace c with (s_compl (SOr c idx els)) at 1 by (destruct c; reflexivity).
+      apply (ser_hit (SOr c idx els) st vals i); [rewrite Hreg; exact El|exact Hinv].
+    + destruct (ser_els_ok els IH st vals Hu Hinv) as (v1 & Hu1 & Hi1 & (e1 & He1) & Hv1).
+      destruct (ser_els els st) as [o s1]. cbn [fst snd] in *.
+      assert (Hlen : length (snd s1) = length v1).
+      { rewrite (eval_xrows_length _ _ _ Hu1). reflexivity. }
+      exists (v1 ++ [sden (SOr false idx els) a]).
+      split; [|split; [|split]].
+      * rewrite eval_xrows_app, Hu1. cbn [eval_xrows]. rewrite Hv1. rewrite sden_or, xorb_false_l. reflexivity.
+      * rewrite Hlen. apply sinv_push; [exact Hi1|exact I|reflexivity].
+      * exists (e1 ++ [sden (SOr false idx els) a]). rewrite He1, <- app_assoc. reflexivity.
+      * cbn [xptr_val]. rewrite Hlen, nth_error_app2 by lia. rewrite Nat.sub_diag. cbn [nth_error].
+        f_equal. rewrite !sden_or, xorb_false_l. reflexivity.
+Qed.
+End SddSer.
+
+(* the independent evaluator of the SDD node table computes the SDD's function, for every
+   unfolding (no well-formedness needed) *)
+Theorem ser_sdd_sem p a :
+  eval_xtable (fst (sdd_serialize p)) (snd (sdd_serialize p)) a = Some (sden p a).
+Proof.
+  unfold sdd_serialize, eval_xtable.
+  destruct (ser_sdd_ok a p ([], []) [] eq_refl) as (v & Hu & _ & _ & Hv).
+  { intros k i H. discriminate. }
+  destruct (ser_sdd p ([], [])) as [r st]. cbn [fst snd] in *. rewrite Hu. exact Hv.
+Qed.
+
+Theorem ser_sdd_ordered p : xrows_ordered (fst (sdd_serialize p)) = true.
+Proof.
+  unfold sdd_serialize, xrows_ordered.
+  destruct (ser_sdd_ok (fun _ => false) p ([], []) [] eq_refl) as (v & Hu & _).
+  { intros k i H. discriminate. }
+  destruct (ser_sdd p ([], [])) as [r st]. cbn [fst snd] in *.
+  exact (eval_xrows_ordered _ _ _ _ Hu).
+Qed.
